@@ -384,6 +384,29 @@ def enumerate_faults(name, quick, rng):
             add(idx, what, ['append', '\x00' * 8])
             add(idx, what, ['payload', ''])
             add(idx, what, ['payload', chr(payload[0])])
+        elif what == 'pkm':
+            # SSH-1 public key message with a *valid* checksum around a changed body: every truncation, every
+            # bit-length field at boundary values, other packet types, trailing bytes
+            t1, body1 = wire.ssh1_parse_packet(raw)
+            for k in range(len(body1)):
+                if not quick or k < 32 or k % 5 == 0 or k > len(body1) - 16:
+                    add(idx, what, ['ssh1_trunc', k])
+            offs, q = [], 12
+            for blk in range(2):
+                for _ in range(2):
+                    offs.append(q)
+                    q += 2 + (struct.unpack('>H', body1[q:q + 2])[0] + 7) // 8
+                q += 4
+            for o in offs:
+                cur = struct.unpack('>H', body1[o:o + 2])[0]
+                for v in (0, 1, 7, 8, 9, cur - 8, cur - 1, cur + 1, cur + 8, 0x7fff, 0x8000, 0xffff):
+                    add(idx, what, ['ssh1_set_u16', o, v])
+            for t in (0, 1, 3, 14, 15, 20, 36, 255):
+                add(idx, what, ['ssh1_type', t])
+            add(idx, what, ['ssh1_append', '\x00'])
+            add(idx, what, ['ssh1_append', '\xff' * 64])
+            add(idx, what, ['ssh1_body', ''])
+            add(idx, what, ['ssh1_body', '\x00' * 8])
         else:
             for junk in ('\x00' * 40 + '\n', 'x' * 5000 + '\n', 'SSH-\n', 'SSH-2.0\n', '\xff\xfe\xfd\n', '\r\n' * 30):
                 add(idx, what, ['raw', junk, None])
